@@ -23,9 +23,13 @@ var (
 // This function allocates regions starting at the end of the kernel address
 // space. It should only be used during the early stages of kernel initialization.
 func EarlyReserveRegion(size uintptr) (uintptr, *kernel.Error) {
-	size = (size + (mm.PageSize - 1)) & ^(mm.PageSize - 1)
+	// reserving a region of the requested size will cause an underflow;
+	// checking before rounding also keeps the rounding from overflowing
+	if size > earlyReserveLastUsed {
+		return 0, errEarlyReserveNoSpace
+	}
 
-	// reserving a region of the requested size will cause an underflow
+	size = (size + (mm.PageSize - 1)) & ^(mm.PageSize - 1)
 	if size > earlyReserveLastUsed {
 		return 0, errEarlyReserveNoSpace
 	}
